@@ -279,6 +279,24 @@ impl Token {
     }
 }
 
+#[cfg(feature = "quinn_rs_quinn_verif")]
+impl Token {
+    /// verification hook: construct with a chosen nonce (the nonce is an explicit input of the model)
+    pub(crate) fn verif_with_nonce(payload: TokenPayload, nonce: u128) -> Self {
+        Self { payload, nonce }
+    }
+
+    /// verification hook: the private decoder
+    pub(crate) fn verif_decode(key: &dyn HandshakeTokenKey, raw: &[u8]) -> Option<Self> {
+        Self::decode(key, raw)
+    }
+
+    /// verification hook: the nonce
+    pub(crate) fn verif_nonce(&self) -> u128 {
+        self.nonce
+    }
+}
+
 /// Content of a [`Token`] that is encrypted from the client
 pub(crate) enum TokenPayload {
     /// Token originating from a Retry packet
